@@ -68,6 +68,10 @@ func (u *Unit) queryV(ob *Obligation, forCVC bool, withModel bool, macroAt bool)
 			if c.ob.Canary || ob.Canary {
 				continue
 			}
+			// an obligation this run does not check must not be assumed either: it may be the one that fails
+			if c.ob.Unchecked {
+				continue
+			}
 			// obligations about end states (returns, back edges, loop entry) cannot help later program points
 			if c.ob.Kind == "ensures" || c.ob.Kind == "inv-step" || c.ob.Kind == "inv-init" {
 				continue
